@@ -185,6 +185,11 @@ def binR : BinOp → Pos
   | .lShift | .rShift => .binRShift
   | .bitAnd => .binRBand | .bitXor => .binRBxor | .bitOr => .binRBor
 
+/-- the slot of an operand of `and` / `or` -/
+def boolSlot : BoolOp → Pos
+  | .and_ => .boolAnd
+  | .or_ => .boolOr
+
 def optChild (p : Pos) : Option Expr → List (Pos × Expr)
   | none => []
   | some e => [(p, e)]
